@@ -36,13 +36,13 @@ def queries(tier):
         defs = {'MODE': mode, 'W': W, 'H': H, 'ALPHA': A, 'CW': CW, 'FCAP': 96 + n}
         if tlen is not None:
             defs['TLEN'] = tlen
-        return dict(name='ppm_%s_%dx%da%d_cw%d%s' % (('colour_roundtrip', 'gray_decode')[mode], W, H, A, CW, '' if tlen is None else '_cut%d' % tlen), unit='img', harness='h_ppm.c', defs=defs,
-                    unwind=max(W, H, 6) + 2, unwindset='in_bytes.0:%d,w_set_data.0:%d,verif_memset_loop.0:%d,X_fread.0:%d,X_fwrite.0:%d,verif_memcpy_loop.0:%d,harness.0:%d,harness.1:%d,harness.2:%d,put_str.0:40,put_dec.0:22,put_dec.1:22,X___isoc99_fscanf.0:6,X___isoc99_fscanf.1:22,X_snprintf.2:22,X_snprintf.3:22,X_snprintf.4:22,X_snprintf.5:22,X_snprintf.6:22,X_snprintf.7:22,X_snprintf.0:80,X_snprintf.1:80,strlen.0:100,X_fgets.0:260' % (n, n, 260, n, 100, 260, 100, 100, 100),
+        return dict(name='ppm_%s_%dx%da%d_cw%d%s' % (('colour_save', 'gray_decode', 'colour_load')[mode], W, H, A, CW, '' if tlen is None else '_cut%d' % tlen), unit='img', harness='h_ppm.c', defs=defs,
+                    unwind=max(W, H, 6) + 2, unwindset='in_bytes.0:%d,w_set_data.0:%d,verif_memset_loop.0:%d,X_fread.0:%d,X_fwrite.0:%d,verif_memcpy_loop.0:%d,harness.0:%d,harness.1:%d,harness.2:%d,harness.3:100,harness.4:100,put_str.0:40,put_dec.0:22,put_dec.1:22,fscanf_core.0:6,fscanf_core.1:22,snprintf_core.0:80,snprintf_core.1:22,snprintf_core.2:22,strlen.0:100,X_fgets.0:260' % (n, n, 260, n, 100, 260, 100, 100, 100),
                     timeout=900, mem_gb=8, object_bits=12, flags=FLAGS,
-                    desc='%s, %dx%d, alpha=%d, %d-bit samples, %s: exception or identical' % (('colour PPM/PAM save->load: exact Netpbm header, raw samples, identity', 'grayscale PPM/PAM input: (g,g,g[,a]) expansion, memory safety')[mode], W, H, A, CW, 'every prefix that ends inside the samples (symbolic)' if tlen is None else 'prefix of %d bytes (inside the header)' % tlen),
+                    desc='%s, %dx%d, alpha=%d, %d-bit samples, %s: exception or identical' % (('colour PPM/PAM save: file == canonical Netpbm header + raw samples', 'grayscale PPM/PAM input: (g,g,g[,a]) expansion, memory safety', 'colour PPM/PAM load of the canonical file: identity')[mode], W, H, A, CW, 'every prefix that ends inside the samples (symbolic)' if tlen is None else 'prefix of %d bytes (inside the header)' % tlen),
                     bounds='image %dx%d, all sample bytes, every truncation length' % (W, H))
     if tier == 'quick':
-        qs += [ppm(0, 2, 2, 0, 8), ppm(0, 2, 2, 0, 8, 5), ppm(0, 1, 2, 0, 16), ppm(0, 2, 1, 0, 64), ppm(0, 2, 1, 0, 64, 27), ppm(1, 2, 2, 0, 8), ppm(1, 1, 2, 0, 16)]
+        qs += [ppm(0, 2, 2, 0, 8), ppm(2, 2, 2, 0, 8), ppm(2, 2, 2, 0, 8, 5), ppm(2, 1, 2, 0, 16), ppm(2, 2, 1, 0, 64), ppm(2, 2, 1, 0, 64, 27), ppm(1, 2, 2, 0, 8), ppm(1, 1, 2, 0, 16)]
     if tier == 'quick':
         qs += [bmpvar(2, 2, 24, 0, 0, 40), bmpvar(3, 2, 24, 0, 1, 40), bmpvar(2, 2, 32, 0, 0, 40), bmpvar(2, 2, 32, 3, 0, 124, 2), bmpvar(1, 2, 32, 3, 1, 108)]
     if tier == 'quick':
